@@ -286,6 +286,8 @@ pub fn run(ctx: &Ctx) -> Report {
         }
     });
     rep.merge(r);
+    // ---- finish_error after a refused value (props/recover.rs): the ERR carries what it was given
+    rep.merge(super::recover::group(ctx, "C13", super::recover::Clause::ErrFields, None, 1500, 30_000));
     rep.merge(super::mega::run(ctx, "C13", 1500, 60000));
     if ctx.strict() {
         rep.require("err_packets_compared", 1000);
